@@ -7,6 +7,9 @@ var commonAssumptions = []string{
 }
 
 var props = map[string]propMeta{
+	"C07": {Level: "model_checking", QuickS: 200, ThoroughS: 1800,
+		Rule: "2 books (nested recipe, empty recipe, repeated ingredient, zero coefficient) x every log of two days (<= 2+1 entries quick, <= 3+2 thorough, over 5 foods incl. an undefined food and a directly logged element, 3 dyadic quantities; second day on a later or on the same date) x period {none, one day}; per input ~20 commands are run and the relations of the property are checked between their parsed outputs in exact decimal arithmetic. A case is non-trivial when the log has at least two entries.",
+		Assumptions: commonAssumptions},
 	"C05": {Level: "model_checking", QuickS: 150, ThoroughS: 1500, NeedBin: true,
 		Rule: "16 inputs (all subsets of: value ties, several unresolved foods, three days, deep chain at the depth limit) x 26 command shapes x map iteration orders: every permutation at every single dynamic visit of a ranged map (quick: 1 deviating visit, thorough: 2) plus three persistent policies (reverse / rotate / swap at every visit); oracle = byte-identical stdout, error text and status versus the sorted-order run. A case is non-trivial when at least one visited map was delivered in a non-sorted order.",
 		Assumptions: commonAssumptions},
